@@ -1,5 +1,6 @@
 import ClusterVerif.Spec.C01
 import ClusterVerif.Model.C01Commit
+import ClusterVerif.Gen.C01Shutdown
 import Driver.PinParse
 /-!
 C01 driver. One case = one history:
@@ -15,7 +16,11 @@ C01 driver. One case = one history:
   implementation let through; the model's `Op.decodable` must agree with every bit.
 * events: `,`-separated `<replica><code>`: a apply (of the next COMMITTED entry), b Snapshot(), p Persist(),
   s = b+p, i<src> install, d shutdown, k kill, r restart, o offline read, x (real-Raft kinds) the next
-  submitted op was refused by LogPin / LogUnpin with an error (obs `fail~…`: nothing changed)
+  submitted op was refused by LogPin / LogUnpin with an error (obs `fail~…`: nothing changed);
+  dl / dt / de / dc (real Raft, kind shut): `Consensus.Shutdown(ctx)` with a live context, one with a deadline
+  ahead, one whose deadline has passed, one that was cancelled before the call — the model event is what
+  `Shut.shutEv` makes of the shape EXTRACTED from raft.go (`Shut.Gen.shape`): shutdown with snapshot, or
+  stop without one; the Spec is told that a Shutdown happened
 * one obs per event (an `s` event has ONE obs, after the Persist): `res~applied~view~calls`,
   res ok|noop|err|crash, view D|E|<pinset>, calls `-` or `T<pin>`/`U<pin>` joined by `+`;
   a replay observation of the real-Raft harness has a fifth field: the number of entries its snapshot covered.
@@ -40,6 +45,7 @@ inductive Tok where
   | burst (c : Nat)     -- FSM harness: entries applied back to back up to `c`, tracker calls in arrival order
   | refused             -- real Raft: LogPin / LogUnpin of the next submitted op returned an error (the gate)
   | snapIfNew           -- real Raft: Snapshot() is only attempted when something was applied since the last one
+  | shut (ctx : Shut.Ctx)  -- real Raft: Consensus.Shutdown(ctx)
 
 def parseEvent (s0 : String) : Option (Nat × Tok) := do
   -- `@<k>:<input token>` (kind net) only tells a replay which script token produced this one
@@ -54,6 +60,10 @@ def parseEvent (s0 : String) : Option (Nat × Tok) := do
   else if rest == "k" || rest == "K" then pure (r, .evs [.kill])
   else if rest == "r" then pure (r, .evs [.restart])
   else if rest == "o" then pure (r, .evs [.offline])
+  else if rest == "dl" then pure (r, .shut .live)
+  else if rest == "dt" then pure (r, .shut .deadline)
+  else if rest == "de" then pure (r, .shut .expired)
+  else if rest == "dc" then pure (r, .shut .cancelled)
   else if rest.startsWith "i" then do pure (r, .evs [.install (← (rest.drop 1).toString.toNat?)])
   else if rest.startsWith "R" then do pure (r, .upTo [.restart] (← (rest.drop 1).toString.toNat?))
   else if rest.startsWith "A" then do pure (r, .upTo [] (← (rest.drop 1).toString.toNat?))
@@ -185,6 +195,8 @@ def oneEvent (ops : List Op) (a : Acc) (i : Nat) (tok : Tok) (o : RawObs) (k : N
       | none => []
     -- a refused submission is no event of any replica: the peer is only read
     | .refused => [.offline]
+    -- a quiescent node: Raft has applied its whole log when Shutdown is called
+    | .shut ctx => [Shut.shutEv Shut.Gen.shape ctx true]
   let (sys', out, sh', beyond, lastEv) := evs.foldl
     (fun (st : Sys × StepOut × List Shadow × Bool × Ev) e =>
       let (s, prev, sh, b, _) := st
@@ -203,6 +215,8 @@ def oneEvent (ops : List Op) (a : Acc) (i : Nat) (tok : Tok) (o : RawObs) (k : N
     (a.sys, { res := if composite then .ok else .noop }, a.shadow, a.beyond, Ev.apply)
   let r' := (sys'[i]?).getD {}
   let (ev, ea) := observe r' lastEv
+  -- whatever the code makes of it, the Spec judges a Shutdown
+  let lastEv := match tok with | .shut _ => Ev.shutdown | _ => lastEv
   let isRefused := match tok with | .refused => true | _ => false
   -- the tracker is called synchronously (2ba6875): the calls arrive in the order the model makes them
   let agree := out.res == o.res && ea == o.applied && canonView ev == canonView o.view &&
@@ -236,6 +250,12 @@ def oneEvent (ops : List Op) (a : Acc) (i : Nat) (tok : Tok) (o : RawObs) (k : N
     | .upTo [.restart] _ => addFeat feats "restart-replay"
     | .upTo _ _ => if ((pre[i]?).map (fun r => !(r.offlineView).isEmpty)).getD false
                    then addFeat feats "restart-install-nonempty" else addFeat feats "restart-install"
+    | _ => feats
+  let feats := match tok with
+    | .shut .live => addFeat feats "shutdown-ctx-live"
+    | .shut .deadline => addFeat feats "shutdown-ctx-deadline"
+    | .shut .expired => addFeat feats "shutdown-ctx-expired"
+    | .shut .cancelled => addFeat feats "shutdown-ctx-cancelled"
     | _ => feats
   let feats := if win then addFeat feats "replay-window" else feats
   let feats := if isRefused then addFeat feats "refused-by-commit" else feats
@@ -373,8 +393,8 @@ def answer (ws : List String) : String :=
             " order=" ++ (if tr.all (trackerOrderOk ops) then "1" else "0") ++
             -- does the implementation behave exactly as the model (which includes the recorded defects) predicts?
             " agree=" ++ (if a.firstDiff.isNone then "1" else "0")
-        let failedPre := (clauses ops (trace.take cut)).filter (fun c => !c.2)
-        let failed := (clauses ops trace).filter (fun c => !c.2)
+        let failedPre := (clauses ops (trace.take cut) ++ shutdownClauses (trace.take cut)).filter (fun c => !c.2)
+        let failed := (clauses ops trace ++ shutdownClauses trace).filter (fun c => !c.2)
         if !failedPre.isEmpty then report (trace.take cut) (wins.take cut) false failedPre
         else if a.firstDiff.isSome && a.firstDiffAt < cut then "diff " ++ arm ++ " " ++ a.firstDiff.getD ""
         else if !failed.isEmpty then report trace wins origins failed
